@@ -756,7 +756,7 @@ def run(ctx):
     evaluations = boundaries = 0
     distinct = set()
     kinds = {}
-    corr_bad = 0
+    corr_bad = oracle_hits = 0
     if meta is not None:
         seqs = gen_sequences(ctx)
         for si, (origin, ops) in enumerate(seqs):
@@ -790,6 +790,9 @@ def run(ctx):
                 diff = compare_with_model(model, out)
                 if diff is not None:
                     corr_bad += 1
+                # reported twice at most and never ends the search: the implementation-side oracles
+                # keep running on every remaining sequence
+                if diff is not None and corr_bad <= 2:
 
                     def pred2(cand):
                         o = run_impl(ctx, meta, cand, "k")
@@ -802,7 +805,9 @@ def run(ctx):
             if si % 61 == 0 and out.traces:
                 ctx.add_sample({"origin": origin, "ops": [o["op"] for o in ops][:12],
                                 "boundaries": [len(t) for t in out.traces][:12]})
-            if len(ctx.violations) >= 3:
+            if found:
+                oracle_hits += 1
+            if oracle_hits >= 3:
                 break
         if model is not None:
             ok = model.call("run_store_ok", [])
